@@ -245,7 +245,7 @@ def run(tier, seed):
     chk.machine_family("repository-prolog-files", repo_file_scenarios(), features=features, opts_list=DEC)
     chk.machine_family("scale", gen.scale_scenarios(), features=features, max_steps=6000)
     SG = gen.scale_groups()
-    BIG = {"budget_extra": 20000000}
+    BIG = {"budget_extra": 20000000, "must_complete": True}
     chk.machine_family("scale-arity-zeroargs-chains", SG["arity"] + SG["zero"] + SG["chain"] + SG["calln"], BIG, features=features, max_steps=30000)
     # the same programs with once-only variables written `_` and the named ones spelled like names a compiler
     # generates for its own purposes
